@@ -119,10 +119,32 @@ def cells(thorough):
         for plain in ('signed', 'corrupted', 'unsigned'):
             for sr in opts:
                 out.append(dict(wr=wr, wa=wa, wo=wo, sr=sr, sa=True, enc='mixed', cor='plain-' + plain, ident='id0', primed=False))
+    # an assertion inside the Advice of the (plain) main assertion, carrying a signature of its own that is valid /
+    # corrupted (its content edited before the enclosing signatures were made, so those stay valid) / absent
+    for wr, wa, wo in itertools.product(opts, repeat=3):
+        for adv in ('signed', 'corrupted', 'unsigned', 'signed-by-mallory'):
+            for sr, sa in itertools.product(opts, repeat=2):
+                out.append(dict(wr=wr, wa=wa, wo=wo, sr=sr, sa=sa, enc='advice', cor='advice-' + adv, ident='id0', primed=False))
     return out
 
 
 TMP = [None]
+
+
+def build_advice(cell, now):
+    adv = cell['cor'][7:]
+    inner = forge.assertion(now, aid='ADV1', sign=(adv != 'unsigned'), subject='alice', attrs=(('title', ('ADVICE-ASSERTION',)),))
+    outer = forge.assertion(now, aid='A1', sign=bool(cell['sa']), advice=inner, **IDENTS['id0'])
+    x = forge.response(now, [outer], sign=bool(cell['sr']))
+    if adv != 'unsigned':
+        x = forge.sign(x, 'ADV1', 'mallory' if adv == 'signed-by-mallory' else 'idpA')
+    if adv == 'corrupted':
+        x = x.replace('ADVICE-ASSERTION', 'ADVICE-ASSERTION-EDITED')
+    if cell['sa']:
+        x = forge.sign(x, 'A1', 'idpA')
+    if cell['sr']:
+        x = forge.sign(x, 'R1', 'idpA')
+    return x
 
 
 def build_mixed(cell, now):
@@ -144,6 +166,8 @@ def build_mixed(cell, now):
 def build(cell, now):
     if cell['enc'] == 'mixed':
         return build_mixed(cell, now)
+    if cell['enc'] == 'advice':
+        return build_advice(cell, now)
     cor = cell['cor']
     a = dict(IDENTS[cell['ident']])
     kw = dict(assertions=[a], sign_resp=False, sign_ass=False)
@@ -187,6 +211,9 @@ def expected(cell):
         plain = cell['cor'][6:]
         req = (not cell['wr'] or cell['sr']) and (not cell['wa'] or plain == 'signed') and (not cell['wo'] or cell['sr'] or plain == 'signed')
         return None if (req and plain != 'corrupted') else False      # None: acceptance not demanded
+    if cell['enc'] == 'advice':
+        # a present signature that does not verify is never ignored; otherwise acceptance is not demanded here
+        return False if cell['cor'] in ('advice-corrupted', 'advice-signed-by-mallory') else None
     if cell['cor'].startswith('issuer-without-signing-key') or cell['cor'] == 'undecryptable':
         return False
     wr = True if cell['wr'] is None else cell['wr']      # documented default: want_response_signed = True
